@@ -247,6 +247,12 @@ fixed("C04", "C04:open-or-negative-row-bounds", "d61966a",
        {"shape": [2, 2], "steps": [{"form": "rowslice", "r0": 1, "r1": 2, "c0": 0, "c1": 2, "block": ["zz"],
                                     "rows_as": "open_stop", "witness": True}]}])
 
+fixed("C07", "C07:render-after-re-entry", "6ad5d38",
+      "a CursorAwareWindow left and entered again kept the row cache of its first context: the first render after "
+      "re-entry did not draw rows equal to what was drawn (and erased) before",
+      [{"rows": 5, "cols": 7, "nhist": 2, "park": None, "keep": False, "hide": True, "reenter_before": 1, "steps": [
+          {"array": ["hello", "world"], "cursor": [0, 0]}, {"array": ["hello", "world"], "cursor": [0, 0]}]}])
+
 known("C03", "C03:prefix-then-undecodable-byte",
       "get_key raises UnicodeDecodeError for a table-sequence prefix (e.g. ESC) followed by a byte >= 0x80 "
       "that does not decode: ESC + any 8-bit byte under ascii, ESC + a UTF-8 lead/continuation byte under utf-8",
